@@ -272,14 +272,13 @@ void StringDictionaryHASHRPDAC::save(std::ostream &out) {
   hash->save(out);
 }
 
-StringDictionary *StringDictionaryHASHRPDAC::load(std::istream &in,
-                                                  uint technique) {
+StringDictionary *StringDictionaryHASHRPDAC::load(std::istream &in, uint) {
   size_t type = loadValue<uint32_t>(in);
   if (type != HASHRPDAC)
     return NULL;
 
   StringDictionaryHASHRPDAC *dict = new StringDictionaryHASHRPDAC();
-  dict->type = technique;
+  dict->type = HASHRPDAC;
   dict->elements = loadValue<uint64_t>(in);
   dict->maxlength = loadValue<uint32_t>(in);
 
